@@ -46,6 +46,63 @@ Table "Python construct -> model term" (anything else is REJECTED):
                                                              range, the model drops them: not translated, see C16 report)
     nominal_delayed_feedback[i]                              d.nominal
     g.append((a - b) / n)                                    Res.divBy n (Res.sub a b)
+
+Second generated module, `lean/RtcVerif/Gen/DelayHist.lean` (`gen_delay_hist`): the delayed-feedback block of the
+member loop of `transcribe` BEFORE the row loop, and the whole row with the receiving variable given by NAME:
+
+  histTimesGen   `history_times`                                          = DelayProb.hts
+  histValsGen    `history_values[:, j]`                                   = histColumn (mode j) (history of j) hts
+  histDersGen    `history_derivatives[:, j]`                              = histDerColumn … (on every row that is read)
+  cinHistGen / symHistGen   the argument vector of the history call      = symHist d i        (i < len(history_times))
+  histDGen       `delayed_feedback_history[:, i]`                         = DelayProb.histD
+  outTimesGen / outValuesGen / outKnotsGen   `out_times`, `out_values`    = DelayProb.outKnots (complete and incomplete)
+  symTauGen / tauAtGen   `evaluated_delay_durations[i][k]`                = DelayProb.tauAt    (tau over parameters / constant inputs)
+  earliestGen    `hist_earliest`                                          = DelayProb.earliest
+  symNominalGen / nominalGen   `nominal_delayed_feedback[i]`              = DelayProb.nominal
+  yAtNamedGen    `x_in` with `canonical_signed(name)` resolved by lookup  = (d.named aliases colNames name).yAt
+  delayRowGen    the whole row                                            = (d.named …).rows[k]
+
+Table (locals are recognised by what they are bound to, not by their names; M = the member loop variable):
+
+  ensemble_aggregate["parameters"][:, M]                     the member's parameters          .par j -> d.mp.pars[j]
+  ensemble_store[M]["constant_inputs"]                       the member's constant inputs on the collocation times   d.cinAt j k
+  ensemble_aggregate["initial_constant_inputs"][:, M]        … at t0                           d.cinAt j 0
+  self.history(M) ; self.constant_inputs(M)                  the member's history / raw constant-input series (d.hists, d.cinRaw)
+        (any other index / a name bound outside the member loop is REJECTED: finding F44)
+  np.unique(np.hstack((np.array([]), *[h.times for h in H.values()])))     uniqueTimes d.allHistTimes
+  T[:-1]                                                     T.dropLast
+  np.empty((len T, n)) ; np.zeros((len T, n))                a matrix whose columns are assigned below
+  if T.shape[0] > 0: <column fills>                          the fills (for an empty T every column is empty either way)
+  for j, var in enumerate(integrated_variables + collocated_variables)    column j of the collocated variables (d.mp.cols)
+  for j, var in enumerate(self.dae_variables["constant_inputs"])          constant input j (d.mp.cins)
+  try: s = H[var.name()] / except KeyError: V[:, j] = np.nan / else: V[:, j] = self.interpolate(T, s.times, s.values, np.nan, np.nan, self.interpolation_method(name))
+        state history (entries may be NaN)                   match history j | none => T.map nan | some ks => T.map (interpNaN (mode j) ks)
+        raw constant input                                   T.map (ofOut (interpCore mode series nanFill nanFill ·));
+                                                             the KeyError branch must assign NaN (a constant input without series is outside the model)
+  ca.repmat(np.nan, 1, V.shape[1])                           [nan]                            (one row, per column)
+  if T.shape[0] > 1: D = ca.vertcat(D, np.diff(V, axis=0) / np.diff(T)[:, None])
+                                                             if T.length > 1 then D ++ resDivRows (resDiff V_j) (ratDiff T) else D
+  for i, time in enumerate(T): delayed_feedback_function.call([P, ca.veccat(ca.transpose(V[i, :]), ca.transpose(D[i, :]), ca.transpose(C[i, :]), time,
+        ca.repmat(np.nan, len(self.path_variables)), ca.repmat(np.nan, len(self.__extra_constant_inputs))), ca.repmat(np.nan, len(self.extra_variables))])
+                                                             the slots in the order of the function inputs: state j, der j, cin j, time, pathv, (extra)
+  H[i, :] = [float(val) for val in res]                      row i of `delayed_feedback_history`
+  delayed_feedback_function.call(self.__func_initial_inputs[M], False, True)   d.trajD head (the member's initial inputs)
+  np.ones(path_variables_size) (+ the loop writing self.variable_nominal(path variable))   .pathv -> 1 (nominals of path variables are not modelled)
+  delayed_feedback_function.call([P, ca.vertcat([self.variable_nominal(var.name()) for var in integrated_variables + collocated_variables],
+        np.zeros((initial_derivatives.size1(), 1)), C0, 0.0, PN, initial_extra_constant_inputs), extra_variables])
+                                                             state j -> nominal j, der -> 0, cin j -> d.cinAt j 0, time -> 0, pathv -> 1
+  list(delayed_feedback_durations) ; L[0] = ca.MX(L[0])      (type plumbing) the durations
+  ca.substitute(L, [ca.vertcat(symbolic_parameters)], [ca.vertcat(P)])      .par j -> d.mp.pars[j]
+  ca.Function("delay_values", self.dae_variables["time"] + self.dae_variables["constant_inputs"], S).map(len(collocation_times))
+  F.call([collocation_times] + [CI[v.name()] for v in self.dae_variables["constant_inputs"]])
+                                                             .time -> d.ts[k] (ABSOLUTE time), .cin j -> d.cinAt j k, any other symbol -> raise (free variable)
+  np.concatenate([T, collocation_times])                     histTimesGen d ++ d.ts
+  ca.veccat(H[:, i], I0[i], ca.transpose(discretized_delayed_feedback[i, :]))   histDGen d ++ d.trajD
+  np.min(collocation_times - delay)  (delay = E[i] of the call above)          earliestGen
+  the row loop itself                                        `translate_rows` above, with `d.outCol` / `d.outNeg` replaced by the column
+                                                             and sign that `canonicalSigned aliases name` yields
+  NOT translated: `discretized_delayed_feedback` (the map over the steps: C01/C15), the casadi `interp1d` kernel, and that in the
+  complete case the code keeps the knots before `hist_start_ind` (the model drops them).
 """
 import ast
 import os
@@ -524,3 +581,554 @@ def gen_delay_rows(c):
             f.write(text)
         os.replace(tmp, path)
     return [("RtcVerif.Gen.DelayRows", "RtcVerif.Gen", THEOREMS)]
+
+
+# ---------------------------------------------------------------------------------------------
+# history assembly / delay durations / row scaling / named receiving variable  (Gen/DelayHist.lean)
+
+import copy
+import re
+
+
+class _Ren(ast.NodeTransformer):
+    def __init__(self, env):
+        self.env = env
+
+    def visit_Name(self, node):
+        if node.id in self.env:
+            return ast.copy_location(ast.Name(id="«%s»" % self.env[node.id], ctx=node.ctx), node)
+        return node
+
+
+def _canon(node, env):
+    """source text of `node` with every local of `env` replaced by its tag"""
+    return ast.unparse(_Ren(env).visit(copy.deepcopy(node)))
+
+
+def _stores(node, name):
+    return sum(1 for n in ast.walk(node) if isinstance(n, ast.Name) and n.id == name and isinstance(n.ctx, (ast.Store, ast.Del)))
+
+
+COLS = "integrated_variables + collocated_variables"
+CINS = "self.dae_variables['constant_inputs']"
+
+
+def translate_hist(tree):
+    fn = _find_method(tree, "CollocatedIntegratedOptimizationProblem", "transcribe")
+    loop = None
+    for st in ast.walk(fn):
+        if isinstance(st, ast.For) and _dump(st.iter) == "range(self.ensemble_size)" and isinstance(st.target, ast.Name) \
+                and any(isinstance(s, ast.Assign) and _dump(s.value).startswith("np.unique(np.hstack(") for s in st.body):
+            loop = st
+    if loop is None:
+        raise TranslationError("transcribe: the member loop holding the delayed-feedback history block not found")
+    M = loop.target.id
+    env = {M: "M"}
+    out = {}
+    start = next(k for k, s in enumerate(loop.body) if isinstance(s, ast.Assign) and _dump(s.value).startswith("np.unique(np.hstack("))
+
+    # -- the member's data: bound once, at the top level of the member loop, to the loop variable
+    header = {
+        "ensemble_aggregate['parameters'][:, «M»]": "P",
+        "ensemble_store[«M»]['constant_inputs']": "CI",
+        "ensemble_aggregate['initial_constant_inputs'][:, «M»]": "C0",
+        "self.history(«M»)": "H",
+    }
+    for st in loop.body[:start]:
+        if isinstance(st, ast.Assign) and len(st.targets) == 1 and isinstance(st.targets[0], ast.Name):
+            tag = header.get(_canon(st.value, env))
+            if tag:
+                nm = st.targets[0].id
+                if _stores(loop, nm) != 1:
+                    raise TranslationError("`%s` (the member's data) is bound more than once in the member loop" % nm)
+                env[nm] = tag
+    for tag in header.values():
+        if tag not in env.values():
+            raise TranslationError("member loop: no binding of the member's own data `%s` (%s)" % (
+                tag, [k for k, v in header.items() if v == tag][0]))
+
+    def bind(target, tag):
+        if not isinstance(target, ast.Name):
+            raise TranslationError("assignment target not in the table: `%s`" % _dump(target))
+        env[target.id] = tag
+
+    def tagof(node):
+        return env.get(node.id) if isinstance(node, ast.Name) else None
+
+    def column_fill(st, T, mat, rows_of, kind):
+        """for j, var in enumerate(<rows_of>): try/except KeyError/else  -> the two branches"""
+        if not (isinstance(st, ast.For) and isinstance(st.target, ast.Tuple) and len(st.target.elts) == 2
+                and _canon(st.iter, env) == "enumerate(%s)" % rows_of and not st.orelse):
+            raise TranslationError("%s: column loop not in the table: `%s`" % (kind, _dump(st)))
+        e2 = dict(env)
+        e2[st.target.elts[0].id] = "J"
+        e2[st.target.elts[1].id] = "VAR"
+        body = list(st.body)
+        if len(body) == 2 and isinstance(body[0], ast.Assign) and _canon(body[0].value, e2) == "«VAR».name()":
+            e2[body[0].targets[0].id] = "VN"
+            body = body[1:]
+        name_txt = "«VN»" if "VN" in e2.values() else "«VAR».name()"
+        if not (len(body) == 1 and isinstance(body[0], ast.Try) and len(body[0].handlers) == 1 and not body[0].finalbody
+                and _dump(body[0].handlers[0].type) == "KeyError"):
+            raise TranslationError("%s: try / except KeyError / else expected: `%s`" % (kind, _dump(st, 300)))
+        tr = body[0]
+        src = "H" if kind == "state history" else "RAW"
+        if not (len(tr.body) == 1 and isinstance(tr.body[0], ast.Assign)
+                and _canon(tr.body[0].value, e2) == "«%s»[%s]" % (src, name_txt)):
+            raise TranslationError("%s: the series must be looked up as <the member's %s>[name]: `%s`" % (
+                kind, "history" if src == "H" else "constant inputs", _canon(tr.body[0], e2)))
+        e2[tr.body[0].targets[0].id] = "S"
+        hb = tr.handlers[0].body
+        if not (len(hb) == 1 and _canon(hb[0], e2) == "«%s»[:, «J»] = np.nan" % mat):
+            raise TranslationError("%s: a missing series must give a NaN column: `%s`" % (kind, _canon(hb[0], e2)))
+        ob = list(tr.orelse)
+        mode_txt = "self.interpolation_method(%s)" % name_txt
+        if len(ob) == 2 and isinstance(ob[0], ast.Assign) and _canon(ob[0].value, e2) == mode_txt:
+            e2[ob[0].targets[0].id] = "IM"
+            mode_txt = "«IM»"
+            ob = ob[1:]
+        want = "«%s»[:, «J»] = self.interpolate(«T», «S».times, «S».values, np.nan, np.nan, %s)" % (mat, mode_txt)
+        if not (len(ob) == 1 and _canon(ob[0], e2) == want):
+            raise TranslationError("%s: column fill not in the table: `%s`" % (kind, _canon(ob[0], e2) if ob else "<nothing>"))
+
+    def veccat_slots(call, e2, fname):
+        if not (isinstance(call, ast.Call) and _dump(call.func) == fname):
+            raise TranslationError("argument vector: `%s(...)` expected: `%s`" % (fname, _dump(call)))
+        return [_canon(a, e2) for a in call.args]
+
+    def walk(stmts):
+        for st in stmts:
+            if isinstance(st, ast.Expr) and isinstance(st.value, ast.Constant):
+                continue
+            c = _canon(st, env)
+            if isinstance(st, ast.Assign) and len(st.targets) == 1:
+                t, v = st.targets[0], st.value
+                cv = _canon(v, env)
+                m = re.fullmatch(r"np\.unique\(np\.hstack\(\(np\.array\(\[\]\), \*\[(\w+)\.times for (\w+) in «H»\.values\(\)\]\)\)\)", cv)
+                if m and m.group(1) == m.group(2):
+                    bind(t, "U")
+                    out["histTimes"] = "uniqueTimes d.allHistTimes"
+                    continue
+                if cv == "«U»[:-1]" and tagof(t) == "U":
+                    bind(t, "T")
+                    out["histTimes"] = "(%s).dropLast" % out["histTimes"]
+                    continue
+                if cv == "np.empty((«T».shape[0], len(integrated_variables) + len(collocated_variables)))":
+                    bind(t, "V0")
+                    continue
+                if cv == "np.empty((«T».shape[0], len(%s)))" % CINS:
+                    bind(t, "CV0")
+                    continue
+                if cv in ("ca.repmat(np.nan, 1, «V».shape[1])", "ca.repmat(np.nan, 1, «V0».shape[1])"):
+                    bind(t, "D0")
+                    out["ders0"] = "[Res.nan]"
+                    continue
+                if cv == "self.constant_inputs(«M»)":
+                    bind(t, "RAW")
+                    continue
+                if cv == "np.zeros((«T».shape[0], len(delayed_feedback_expressions)))":
+                    bind(t, "DH0")
+                    continue
+                if cv == "delayed_feedback_function.call(self.__func_initial_inputs[«M»], False, True)":
+                    bind(t, "I0")
+                    continue
+                if cv == "np.ones(path_variables_size)":
+                    bind(t, "PN")
+                    continue
+                if cv == "0" and isinstance(t, ast.Name):
+                    bind(t, "OFF")
+                    continue
+                if isinstance(v, ast.Call) and _dump(v.func) == "delayed_feedback_function.call" and len(v.args) == 1 \
+                        and isinstance(v.args[0], ast.List) and len(v.args[0].elts) == 3:
+                    a0, a1, a2 = v.args[0].elts
+                    if _canon(a0, env) != "«P»":
+                        raise TranslationError("row scaling: the parameters are not the member's: `%s`" % _canon(a0, env))
+                    sl = veccat_slots(a1, env, "ca.vertcat")
+                    want = ["[self.variable_nominal(var.name()) for var in %s]" % COLS, "np.zeros((initial_derivatives.size1(), 1))",
+                            "«C0»", "0.0", "«PN»", "initial_extra_constant_inputs"]
+                    sl[0] = re.sub(r"\b(\w+)\.name\(\)\) for \1 in", "var.name()) for var in", sl[0])
+                    if sl != want or _canon(a2, env) != "extra_variables":
+                        raise TranslationError("row scaling: argument vector not in the table: `%s`" % sl)
+                    bind(t, "NDF")
+                    out["symNominal"] = True
+                    continue
+                if cv == "list(delayed_feedback_durations)":
+                    bind(t, "L")
+                    continue
+                if isinstance(t, ast.Subscript) and c == "«L»[0] = ca.MX(«L»[0])":
+                    continue
+                if cv == "ca.substitute(«L», [ca.vertcat(symbolic_parameters)], [ca.vertcat(«P»)])":
+                    bind(t, "SUB")
+                    continue
+                if cv == "ca.Function('delay_values', self.dae_variables['time'] + %s, «SUB»).map(len(collocation_times))" % CINS:
+                    bind(t, "F")
+                    continue
+                m = re.fullmatch(r"«F»\.call\(\[collocation_times\] \+ \[«CI»\[(\w+)\.name\(\)\] for (\w+) in %s\]\)" % re.escape(CINS), cv)
+                if m and m.group(1) == m.group(2):
+                    bind(t, "E")
+                    out["symTau"] = True
+                    continue
+                raise TranslationError("assignment not in the table: `%s`" % c[:200])
+            if isinstance(st, ast.If):
+                ct = _canon(st.test, env)
+                if ct == "«T».shape[0] > 0" and not st.orelse and len(st.body) >= 1:
+                    body = list(st.body)
+                    if isinstance(body[0], ast.Assign):
+                        walk(body[:1])
+                        body = body[1:]
+                    if len(body) != 1:
+                        raise TranslationError("column fills: one loop expected under `len(history times) > 0`")
+                    it = _canon(body[0].iter, env) if isinstance(body[0], ast.For) else ""
+                    if it == "enumerate(%s)" % COLS and "V0" in env.values():
+                        column_fill(body[0], "T", "V0", COLS, "state history")
+                        for k in [k for k, v in env.items() if v == "V0"]:
+                            env[k] = "V"
+                        out["vals_none"] = "(histTimesGen d).map (fun _ => Res.nan)"
+                        out["vals_some"] = "(histTimesGen d).map (fun t => interpNaN (d.colMode j) ks t)"
+                    elif it == "enumerate(%s)" % CINS and "CV0" in env.values() and "RAW" in env.values():
+                        column_fill(body[0], "T", "CV0", CINS, "constant-input history")
+                        for k in [k for k, v in env.items() if v == "CV0"]:
+                            env[k] = "CV"
+                        out["cins"] = "(histTimesGen d).map (fun t => ofOut (interpCore (d.cinRaw j).mode (d.cinRaw j).series nanFill nanFill t))"
+                    else:
+                        raise TranslationError("column fills not in the table: `%s`" % c[:200])
+                    continue
+                if ct == "«T».shape[0] > 1" and not st.orelse and len(st.body) == 1 and "D0" in env.values() \
+                        and _canon(st.body[0], env) == "«D0» = ca.vertcat(«D0», np.diff(«V», axis=0) / np.diff(«T»)[:, None])":
+                    for k in [k for k, v in env.items() if v == "D0"]:
+                        env[k] = "D"
+                    out["ders"] = ("if (histTimesGen d).length > 1 then %s ++ resDivRows (resDiff (histValsGen d j)) (ratDiff (histTimesGen d)) else %s"
+                                   % (out["ders0"], out["ders0"]))
+                    continue
+                if ct == "len(delayed_feedback_expressions) > 0" and not st.orelse:
+                    walk(st.body)
+                    continue
+                if ct == "delayed_feedback_expressions" and not st.orelse:
+                    walk(st.body)
+                    continue
+                raise TranslationError("condition not in the table: `%s`" % ct[:200])
+            if isinstance(st, ast.For):
+                it = _canon(st.iter, env)
+                if it == "enumerate(«T»)" and isinstance(st.target, ast.Tuple) and len(st.target.elts) == 2 and len(st.body) == 2 \
+                        and "DH0" in env.values():
+                    e2 = dict(env)
+                    e2[st.target.elts[0].id] = "I"
+                    e2[st.target.elts[1].id] = "TIME"
+                    a, b = st.body
+                    if not (isinstance(a, ast.Assign) and isinstance(a.value, ast.Call) and _dump(a.value.func) == "delayed_feedback_function.call"
+                            and len(a.value.args) == 1 and isinstance(a.value.args[0], ast.List) and len(a.value.args[0].elts) == 3):
+                        raise TranslationError("history call not in the table: `%s`" % _canon(a, e2)[:200])
+                    a0, a1, a2 = a.value.args[0].elts
+                    if _canon(a0, e2) != "«P»":
+                        raise TranslationError("history call: the parameters are not the member's: `%s`" % _canon(a0, e2))
+                    sl = veccat_slots(a1, e2, "ca.veccat")
+                    terms = {"ca.transpose(«V»[«I», :])": "(histValsGen d j).getD i .nan",
+                             "ca.transpose(«D»[«I», :])": "(histDersGen d j).getD i .nan",
+                             "ca.transpose(«CV»[«I», :])": "(cinHistGen d j).getD i .nan",
+                             "«TIME»": ".num ((histTimesGen d).getD i 0)",
+                             "ca.repmat(np.nan, len(self.path_variables))": ".nan",
+                             "ca.repmat(np.nan, len(self.__extra_constant_inputs))": None}
+                    if len(sl) != 6 or any(x not in terms for x in sl) or sl[5] != "ca.repmat(np.nan, len(self.__extra_constant_inputs))" \
+                            or _canon(a2, e2) != "ca.repmat(np.nan, len(self.extra_variables))":
+                        raise TranslationError("history call: argument vector not in the table: `%s`" % sl)
+                    for key, x in zip(("h_state", "h_der", "h_cin", "h_time", "h_pathv"), sl[:5]):
+                        out[key] = terms[x]
+                    e2[a.targets[0].id] = "RES"
+                    cb = _canon(b, e2)
+                    if not re.fullmatch(r"«DH0»\[«I», :\] = \[float\((\w+)\) for \1 in «RES»\]", cb):
+                        raise TranslationError("history row not stored as computed: `%s`" % cb)
+                    for k in [k for k, v in env.items() if v == "DH0"]:
+                        env[k] = "DH"
+                    continue
+                if it == "self.__path_variable_names" and "PN" in env.values() and len(st.body) == 3:
+                    e2 = dict(env)
+                    e2[st.target.id] = "PV"
+                    e2[st.body[0].targets[0].id] = "SZ"
+                    got = [_canon(x, e2) for x in st.body]
+                    if got != ["«SZ» = self.__variable_sizes[«PV»]", "«PN»[«OFF»:«OFF» + «SZ»] = self.variable_nominal(«PV»)", "«OFF» += «SZ»"]:
+                        raise TranslationError("path-variable nominals not in the table: `%s`" % got)
+                    continue
+                if it == "range(len(delayed_feedback_expressions))":
+                    rows_loop(st)
+                    continue
+                raise TranslationError("loop not in the table: `%s`" % c[:160])
+            raise TranslationError("statement not in the table: `%s`" % c[:160])
+
+    def rows_loop(loop2):
+        """the pieces of the row loop that refer to the block above (the loop itself: translate_rows)"""
+        e2 = dict(env)
+        e2[loop2.target.id] = "I"
+        found = set()
+        for st in ast.walk(loop2):
+            if isinstance(st, ast.Assign) and len(st.targets) == 1 and isinstance(st.targets[0], ast.Name):
+                cv = _canon(st.value, e2)
+                if cv == "«E»[«I»]":
+                    e2[st.targets[0].id] = "DELAY"
+                    found.add("delay")
+                elif cv == "«DELAY».toarray().flatten()":
+                    e2[st.targets[0].id] = "DELAY"
+                elif cv == "np.concatenate([«T», collocation_times])":
+                    out["outTimes"] = "histTimesGen d ++ d.ts"
+                elif cv == "ca.veccat(«DH»[:, «I»], «I0»[«I»], ca.transpose(discretized_delayed_feedback[«I», :]))":
+                    out["outValues"] = "histDGen d ++ d.trajD"
+                elif cv == "np.min(collocation_times - «DELAY»)":
+                    out["earliest"] = "minList ((List.range d.ts.length).map (fun k => d.ts.getD k 0 - resRat (tauAtGen d k)))"
+                elif cv == "«NDF»[«I»]":
+                    out["nominal"] = "resRat (d.expr.eval (symNominalGen d))"
+                elif cv.startswith("np.concatenate(") or cv.startswith("ca.veccat(") or cv.startswith("np.min("):
+                    raise TranslationError("row loop: not in the table: `%s`" % cv[:200])
+        if "delay" not in found:
+            raise TranslationError("row loop: the delay is not the evaluated duration of this feedback")
+
+    walk(loop.body[start:start + 1])
+    k = start + 1
+    # the block ends with the statement holding the row loop
+    while k < len(loop.body):
+        st = loop.body[k]
+        walk([st])
+        k += 1
+        if any(isinstance(n, ast.For) and _dump(n.iter) == "range(len(delayed_feedback_expressions))" for n in ast.walk(st)):
+            break
+    need = ["histTimes", "vals_none", "vals_some", "ders", "cins", "h_state", "h_der", "h_cin", "h_time", "h_pathv",
+            "symNominal", "symTau", "outTimes", "outValues", "earliest", "nominal"]
+    for key in need:
+        if key not in out:
+            raise TranslationError("transcribe: `%s` part of the delayed-feedback block not found" % key)
+    if not out["histTimes"].endswith(".dropLast"):
+        raise TranslationError("history times: the last stamp (t0) is not dropped")
+    return out
+
+
+HIST_TEMPLATE = """import RtcVerif.Proofs.C16Hist
+/-!
+GENERATED on every run of the C16 check by harness/translate_c16.py (`gen_delay_hist`) from the
+delayed-feedback block of `CollocatedIntegratedOptimizationProblem.transcribe` in
+/repo/src/rtctools/optimization/collocated_integrated_optimization_problem.py: the history assembly of
+the delayed expression, the delay-duration resolution, the row scaling and the alias resolution of the
+receiving variable (table in the header of the translator).
+Do not edit.  The theorems tie the source, read this way, to the model the theorems of C16 are about.
+-/
+set_option linter.unusedVariables false
+set_option linter.unusedSimpArgs false
+set_option linter.unreachableTactic false
+set_option linter.unusedTactic false
+namespace RtcVerif.Gen
+open RtcVerif RtcVerif.Interp RtcVerif.C15 RtcVerif.C16
+
+/-- `history_times` -/
+def histTimesGen (d : DelayProb) : List Rat := %(histTimes)s
+
+theorem histTimesGen_eq_model (d : DelayProb) : histTimesGen d = d.hts := by
+  unfold histTimesGen DelayProb.hts historyTimes
+  rfl
+
+/-- `history_values[:, j]` -/
+def histValsGen (d : DelayProb) (j : Nat) : List Res :=
+  match d.hists.getD j none with
+  | none => %(vals_none)s
+  | some ks => %(vals_some)s
+
+theorem histValsGen_eq_model (d : DelayProb) (j : Nat) :
+    histValsGen d j = histColumn (d.colMode j) (d.hists.getD j none) d.hts := by
+  unfold histValsGen histColumn
+  rw [histTimesGen_eq_model]
+  cases d.hists.getD j none <;> rfl
+
+/-- `history_derivatives[:, j]` -/
+def histDersGen (d : DelayProb) (j : Nat) : List Res :=
+  %(ders)s
+
+/-- `constant_input_values[:, j]` -/
+def cinHistGen (d : DelayProb) (j : Nat) : List Res :=
+  %(cins)s
+
+/-- the inputs of the delayed-feedback function on history row `i` -/
+def symHistGen (d : DelayProb) (i : Nat) : Sym → Res
+  | .state j => %(h_state)s
+  | .der j => %(h_der)s
+  | .cin j => %(h_cin)s
+  | .time => %(h_time)s
+  | .pathv _ => %(h_pathv)s
+  | .par j => .num (d.mp.pars.getD j 0)
+
+theorem symHistGen_eq_model (d : DelayProb) (i : Nat) (hi : i < d.hts.length) (s : Sym) :
+    symHistGen d i s = symHist d i s := by
+  cases s with
+  | state j => simp only [symHistGen, symHist, histValsGen_eq_model]; rfl
+  | der j =>
+    simp only [symHistGen, symHist]
+    unfold histDersGen
+    rw [histValsGen_eq_model, histTimesGen_eq_model]
+    exact histDerRef_getD _ _ (histColumn_length _ _ _) i
+  | cin j =>
+    simp only [symHistGen, symHist]
+    unfold cinHistGen
+    rw [histTimesGen_eq_model, getD_map_lt _ _ i 0 _ hi]
+    rfl
+  | time => simp only [symHistGen, symHist, histTimesGen_eq_model]
+  | pathv j => rfl
+  | par j => rfl
+
+/-- `delayed_feedback_history[:, i]`: the delayed expression on every history row -/
+def histDGen (d : DelayProb) : List Res :=
+  (List.range (histTimesGen d).length).map (fun i => d.expr.eval (symHistGen d i))
+
+theorem histDGen_eq_model (d : DelayProb) : histDGen d = d.histD := by
+  unfold histDGen DelayProb.histD
+  rw [histTimesGen_eq_model]
+  apply List.map_congr_left
+  intro i hi
+  have hi' : i < d.hts.length := List.mem_range.1 hi
+  exact congrArg _ (funext (symHistGen_eq_model d i hi'))
+
+/-- `out_times` -/
+def outTimesGen (d : DelayProb) : List Rat := %(outTimes)s
+
+/-- `out_values` -/
+def outValuesGen (d : DelayProb) : List Res := %(outValues)s
+
+/-- the knots the delayed value is interpolated from: after an incomplete history has been sliced
+    off (code), else from `hist_start_ind` on (the model's reading of the complete case) -/
+def outKnotsGen (d : DelayProb) : Knots :=
+  if d.incomplete then resKnots ((outTimesGen d).drop (histTimesGen d).length) ((outValuesGen d).drop (histTimesGen d).length)
+  else resKnots ((outTimesGen d).drop d.histStart.toNat) ((outValuesGen d).drop d.histStart.toNat)
+
+theorem outKnotsGen_eq_model (d : DelayProb) : outKnotsGen d = d.outKnots := by
+  unfold outKnotsGen outTimesGen outValuesGen
+  rw [histDGen_eq_model, histTimesGen_eq_model]
+  by_cases hi : d.incomplete = true
+  · rw [if_pos hi, outKnots_incomplete_ref d hi]
+  · have hf : d.incomplete = false := by simpa using hi
+    rw [if_neg hi, (outKnots_complete d hf).1]
+
+/-- the inputs of the mapped delay-duration function at collocation stamp `k` -/
+def symTauGen (d : DelayProb) (k : Nat) : Sym → Res
+  | .par j => .num (d.mp.pars.getD j 0)
+  | .cin j => d.cinAt j k
+  | .time => .num (d.ts.getD k 0)
+  | _ => .raise
+
+/-- `evaluated_delay_durations[i][k]` -/
+def tauAtGen (d : DelayProb) (k : Nat) : Res := d.tau.eval (symTauGen d k)
+
+theorem tauAtGen_eq_model (d : DelayProb) (k : Nat)
+    (h : ∀ tm ∈ d.tau.terms, ∀ s ∈ tm.2, tauSymOK s = true) : tauAtGen d k = d.tauAt k := by
+  unfold tauAtGen DelayProb.tauAt
+  apply Expr.eval_congr
+  intro tm htm s hs
+  have := h tm htm s hs
+  cases s <;> first | rfl | (simp [tauSymOK] at this)
+
+/-- `hist_earliest` -/
+def earliestGen (d : DelayProb) : Rat :=
+  %(earliest)s
+
+theorem earliestGen_eq_model (d : DelayProb)
+    (h : ∀ tm ∈ d.tau.terms, ∀ s ∈ tm.2, tauSymOK s = true) : earliestGen d = d.earliest := by
+  unfold earliestGen DelayProb.earliest
+  congr 1
+  apply List.map_congr_left
+  intro k _
+  rw [tauAtGen_eq_model d k h]
+
+/-- the inputs of `nominal_delayed_feedback` -/
+def symNominalGen (d : DelayProb) : Sym → Res
+  | .state j => .num (d.colNominal j)
+  | .der _ => .num 0
+  | .cin j => d.cinAt j 0
+  | .time => .num 0
+  | .pathv _ => .num 1
+  | .par j => .num (d.mp.pars.getD j 0)
+
+/-- `nominal_delayed_feedback[i]` -/
+def nominalGen (d : DelayProb) : Rat := %(nominal)s
+
+theorem nominalGen_eq_model (d : DelayProb) : nominalGen d = d.nominal := by
+  have hs : symNominalGen d = symNominal d := by
+    funext s
+    cases s <;> first | rfl | (simp only [symNominalGen, symNominal, DelayProb.colNominal, DelayProb.cinAt]; try ring_nf)
+  unfold nominalGen DelayProb.nominal
+  rw [hs]
+
+/-- the receiving variable, named: `in_nominal * state_vector(in_canonical)` times the alias sign,
+    on the collocation times -/
+def yAtNamedGen (d : DelayProb) (aliases : List (String × (String × Bool))) (colNames : List String)
+    (name : String) (k : Nat) : Res :=
+  let cs := canonicalSigned aliases name
+  let col := d.mp.cols.getD (colNames.idxOf cs.1) ⟨⟨0, [], [], 0, none, none⟩, 0⟩
+  %(yAtNamed)s
+
+theorem yAtNamedGen_eq_model (d : DelayProb) (aliases : List (String × (String × Bool))) (colNames : List String)
+    (name : String) (k : Nat) :
+    yAtNamedGen d aliases colNames name k = (d.named aliases colNames name).yAt k := by
+  rw [yAt_ref]
+  unfold yAtNamedGen
+  simp only [getD_map_mul]
+  show (if (d.named aliases colNames name).ts.length ≠ (d.named aliases colNames name).outCol.sv.times.length then _ else _) = _
+  by_cases h : (d.named aliases colNames name).outCol.sv.times.length = (d.named aliases colNames name).ts.length
+  · simp only [h, ne_eq, not_true_eq_false, if_false, if_true]
+    all_goals first | rfl | (congr 1; ring)
+  · have h' : ¬ (d.named aliases colNames name).ts.length = (d.named aliases colNames name).outCol.sv.times.length := fun e => h e.symm
+    simp only [h, h', ne_eq, not_false_eq_true, if_true, if_false]
+    all_goals first
+      | rfl
+      | (simp only [mul_comm, mul_left_comm, mul_assoc]; rfl)
+
+/-- the whole delay row at collocation stamp `k`, the receiving variable given by name -/
+def delayRowGen (d : DelayProb) (aliases : List (String × (String × Bool))) (colNames : List String)
+    (name : String) (k : Nat) : Res :=
+  %(delayRow)s
+
+theorem delayRowGen_eq_model (d : DelayProb) (aliases : List (String × (String × Bool))) (colNames : List String)
+    (name : String) (k : Nat) (hk : k < d.ts.length)
+    (h : ∀ tm ∈ d.tau.terms, ∀ s ∈ tm.2, tauSymOK s = true) :
+    delayRowGen d aliases colNames name k = (d.named aliases colNames name).rows.getD k .raise := by
+  rw [(rows_spec (d.named aliases colNames name)).2 k hk]
+  unfold delayRowGen
+  rw [yAtNamedGen_eq_model, nominalGen_eq_model, outKnotsGen_eq_model, tauAtGen_eq_model d k h]
+  all_goals rfl
+
+end RtcVerif.Gen
+"""
+
+HIST_THEOREMS = ["histTimesGen_eq_model", "histValsGen_eq_model", "symHistGen_eq_model", "histDGen_eq_model",
+                 "outKnotsGen_eq_model", "tauAtGen_eq_model", "earliestGen_eq_model", "nominalGen_eq_model",
+                 "yAtNamedGen_eq_model", "delayRowGen_eq_model"]
+
+
+def gen_delay_hist(c):
+    """(re)generate lean/RtcVerif/Gen/DelayHist.lean; returns the extra obligation spec for c.prove"""
+    gdir = os.path.join(LEAN_DIR, "RtcVerif", "Gen")
+    os.makedirs(gdir, exist_ok=True)
+    path = os.path.join(gdir, "DelayHist.lean")
+    what = "delayed-feedback history assembly / delay durations / row scaling / named receiving variable"
+    try:
+        if HIST_TEMPLATE is None:
+            raise TranslationError("template harness/c16_delayhist.lean.tmpl is missing")
+        opt = ast.parse(open(os.path.join(REPO, OPT)).read())
+        h = translate_hist(opt)
+        rows = translate_rows(opt)
+    except TranslationError as e:
+        c.broken.append(("translator: " + what, str(e)))
+        return []
+    except (OSError, SyntaxError) as e:
+        c.broken.append(("translator: " + what, "cannot read/parse the source: %s" % e))
+        return []
+    yat = rows["yAt"].replace("d.outCol", "col").replace("d.outNeg", "cs.2")
+    delayed = "(ofOut (interpSym (d.named aliases colNames name).outMode (outKnotsGen d) (d.ts.getD k 0 - resRat (tauAtGen d k))))"
+    row = rows["row"].replace("d.nominal", "(nominalGen d)").replace("(yAtGen d k)", "(yAtNamedGen d aliases colNames name k)") \
+        .replace("(d.delayedAt k)", delayed)
+    text = HIST_TEMPLATE
+    for key, val in dict(h, yAtNamed=yat, delayRow=row).items():
+        if isinstance(val, str):
+            text = text.replace("%%(%s)s" % key, val)
+    if "%(" in text:
+        c.broken.append(("translator: " + what, "template placeholder left unfilled"))
+        return []
+    old = open(path).read() if os.path.exists(path) else None
+    if old != text:
+        tmp = path + ".tmp%d" % os.getpid()
+        with open(tmp, "w") as f:
+            f.write(text)
+        os.replace(tmp, path)
+    return [("RtcVerif.Gen.DelayHist", "RtcVerif.Gen", HIST_THEOREMS)]
